@@ -6,6 +6,14 @@ C07 (maxi), C02/C03 (scan) into end-to-end statements about the whole scanning p
 between the groups' hand-written models of the same Rust function.  There is no harness and no
 driver: every model used here is tied to /repo by the check of the property that owns it.
 
+A second property file, coq/e2e/E2EStat.v, composes the statistics side: C09 (counts -> frequencies -> weights ->
+log-odds), C11 (MEME-style ScoreDistribution), C12 / C13 (TFM-PVALUE), C10 (reverse complement), C14 (a count
+matrix through a JASPAR 2016 file) on one exact tail probability defined over C01's score_def, and joins it to the
+scanning pipeline: thresholds obtained from a p-value by either method, handed to the binary32 scanner, select
+exactly the positions whose exact tail brackets p up to explicit margins (binary32 summation error eps_f32,
+discretisation dd / granularity d), and Scanner::max() returns the most significant position up to 2 eps_f32.
+Its theorems are obligations of C09 / C11 / C12 / C13 in the thorough tier (STAT_EXTRA / obligations_stat).
+
     ./check e2e [--tier thorough]       ->  `OK group=e2e obligations=k/k ...` (exit 0)
                                             `FAIL group=e2e obligations=d/k ...` (exit 1)
 
@@ -62,12 +70,27 @@ COMPOSES_STAT = {
     "stat_motif_pipeline": ["stat_chain_cells", "C09_background_new_accepts_iff_exact (its right-hand side as hypothesis)",
                             "C11_build_total", "C11_pvalue_brackets_exact", "C12_pvalue_final_bounds", "stat_bridge_tails"],
     "stat_motif_pipeline_score": ["C13_approximate_score_bounds", "stat_bridge_tails"],
-    "stat_threshold_scan_meme_partial": ["C11_methods_total", "C11_score_pvalue_roundtrip", "C11_pvalue_brackets_exact",
+    "stat_threshold_scan_meme_link": ["C11_methods_total", "C11_score_pvalue_roundtrip", "C11_pvalue_brackets_exact",
                                          "E2E.e2e_text_to_hits (shape of the hit list)"],
-    "stat_threshold_scan_tfm_partial": ["C13_approximate_score_bounds", "E2E.e2e_text_to_hits (shape of the hit list)"],
+    "stat_threshold_scan_tfm_link": ["C13_approximate_score_bounds", "E2E.e2e_text_to_hits (shape of the hit list)"],
+    "stat_meme_score_minimal": ["dist bsearch / d_score / d_pvalue models (lower invariant of the binary search proved in "
+                                "E2EStatMeme.v)", "C11_pvalue_brackets_exact", "sf_monotone_range_Q"],
+    "stat_threshold_scan_meme": ["E2EProofs.text_to_hits (= e2e_text_to_hits_well_conditioned)", "C01_fsum_error_bound "
+                                 "(fsum_error_tol, sums_finite_bound) transported to Q", "Flocq Bcompare_correct",
+                                 "pwm f32_to_Q_B2R", "C11 round trip + brackets", "stat_meme_score_minimal",
+                                 "GenAbc alphabet strings (NoDup by computation)"],
+    "stat_threshold_scan_tfm": ["the same transport", "C13_approximate_score_bounds (both clauses)"],
+    "stat_file_pipeline": ["stat_io_roundtrip", "stat_motif_pipeline"],
+    "stat_threshold_scan_wildcards": ["E2EProofs.text_to_hits", "C01 neg_inf_absorbs + sums_finite_bound (a window with a wildcard "
+                                      "scores -inf)", "the same transport for wildcard-free windows"],
+    "stat_threshold_scan_meme_wildcards": ["stat_threshold_scan_wildcards", "C11 round trip + brackets (meme_threshold)"],
+    "stat_threshold_scan_tfm_wildcards": ["stat_threshold_scan_wildcards", "C13_approximate_score_bounds (tfm_threshold)",
+                                          "E2EStatScan.word_score_attain (a clean window is an attainable word of tfm)"],
+    "stat_max_most_significant": ["E2EProofs.text_to_max (= e2e_max_well_conditioned)", "C01_fsum_error_bound transported to Q",
+                                  "Flocq Bcompare_correct", "tail antitone (tfm Ptail_antitone through stat_bridge_tails)"],
     "stat_revcomp": ["C10_revcomp_is_reversal_and_complement", "dist tail_step_comm (tail_exact_cons)"],
     "stat_revcomp_pvalues": ["stat_revcomp", "C11_pvalue_brackets_exact"],
-    "stat_io_roundtrip": ["C14 reader_roundtrip_jaspar16", "alphabets_wf"],
+    "stat_io_roundtrip": ["C14 reader_roundtrip_jaspar16", "alphabets_wf", "GenIoAbc from_ascii tables (letters_ok by computation)"],
 }
 
 TRUSTED_BASE = [
@@ -76,7 +99,8 @@ TRUSTED_BASE = [
     "coq/e2e adds no model of Rust code except the assembly text of E2EPipeline.v (the order of the calls "
     "encode -> stripe_into -> configure -> Scanner::new -> next/max, and the kernel-parameterised copy "
     "knext_block/knext_loop/knext/kcollect of ScanModel.next_block/.., proved equal to the original)",
-    "the Gen*.v files of coq/{stripe,score,maxi,encode} are taken as found on disk (regenerated by ./check C04/C01/C07/C05)",
+    "the Gen*.v files of the imported groups are regenerated from the current tree first (vlib.common.translate_deps)",
+    "E2EStat.v: the models of coq/{pwm,dist,tfm,io} are tied to /repo by the checks of C09/C10, C11, C12/C13, C14",
 ]
 
 ASSUMPTIONS = [
@@ -86,6 +110,14 @@ ASSUMPTIONS = [
     "the matrix has M >= 1 rows of exactly K cells with finite non-wildcard cells; block size >= 1",
     "kernel-level statements (e2e_text_to_hits_kernels, e2e_kernels_agree_with_specs (c)(d)): 32 columns, K <= 16 "
     "symbols (the Rust Scanner is an Iterator for Dna only), 16 <= K + padding bytes per discrete row",
+    "statistics side (E2EStat.v): exact arithmetic (Q / Qc) for everything but the scanner; log2 is an abstract function with "
+    "log2(0) = -inf and finite values on positive arguments; background with positive symbol frequencies and wildcard "
+    "frequency 0 (the bridge dist = tfm needs it); M >= 2 rows for TFM-PVALUE; 1000*M < 2^31 for the MEME-style table",
+    "stat_threshold_scan_meme / _tfm: text without the wildcard letter; matrix passes e2e_wc and the executable no_overflow "
+    "(M <= 2^23, sum over rows of max |symbol cell| <= 2^126); the threshold given to the scanner is a finite binary32 number "
+    "within eta of the exact threshold (eta is a parameter: the theorems do not model how `score(p) as f32` is rounded); "
+    "the p-value tables are those of the binary32 matrix read as rationals, computed exactly (C11 / C13 are exact-arithmetic "
+    "theorems; the binary64 tables of the code are tied to them by the replay of C11 / C12 / C13 with their tolerances)",
 ]
 
 
@@ -147,6 +179,125 @@ def theorems(which=None):
     return out
 
 
+# translators of imported groups that vlib.common.GROUP_TRANSLATORS does not list (added after it was
+# written): without them the composition would be built on whatever Gen*.v the last run of the owning check
+# left on disk (possibly against another tree).  module -> group
+EXTRA_TRANSLATORS = {"translate.scan_skel": "scan", "translate.dist_skel": "dist", "translate.io_abc": "io"}
+
+
+def _extra_translate():
+    """Regenerate GenScan.v / GenDist.v / GenIoAbc.v from the current tree.  A translator that fails or raises
+    is a note here (the owning property's check reports it as its own broken obligation); a changed Gen file
+    is then picked up by the build below."""
+    import importlib
+    notes = []
+    deps = set(_order())
+    for modname, g in sorted(EXTRA_TRANSLATORS.items()):
+        if g not in deps or g in getattr(C, "GROUP_TRANSLATORS", {}):
+            continue
+        try:
+            with C.Lock("coq-" + g):
+                r = importlib.import_module(modname).translate()
+            if not r.get("ok", True):
+                notes.append("translator of imported group %s: %s" % (g, "; ".join(r.get("errors", ["failed"]))))
+        except Exception as e:
+            notes.append("translator of imported group %s raised %r" % (g, e))
+    return notes
+
+
+AUDIT_WORKERS = int(os.environ.get("VERIF_E2E_AUDIT_JOBS", "4"))
+
+
+def _audit_chunk(tag, module, thms, timeout):
+    """One coqc process printing the assumptions of `thms` (same output format and parser as
+    vlib.common.audit_theorems, but its own source file so that chunks can run concurrently)."""
+    d = os.path.join(C.BUILD, "audit")
+    os.makedirs(d, exist_ok=True)
+    src = os.path.join(d, "Audit_%s.v" % tag)
+    body = "Require Import %s.\n" % module
+    for t in thms:
+        body += 'Goal True. idtac "@@BEGIN %s". Abort.\nPrint Assumptions %s.\nGoal True. idtac "@@END %s". Abort.\n' % (t, t, t)
+    open(src, "w").write(body)
+    rc, out = C.sh("coqc -noglob %s %s" % (" ".join(C.qargs_for(GROUP)), src), cwd=d, timeout=timeout)
+    res = {}
+    for t in thms:
+        m = re.search(r"@@BEGIN %s\n(.*?)@@END %s" % (re.escape(t), re.escape(t)), out, re.S)
+        if not m:
+            res[t] = None
+            continue
+        txt = m.group(1)
+        if "Closed under the global context" in txt:
+            res[t] = []
+            continue
+        res[t] = _axiom_names(txt)
+    return res
+
+
+def _axiom_names(txt):
+    """Names listed by `Print Assumptions`: every line starting in column 0 with a qualified identifier followed
+    by ':' or by the end of the line (Coq prints `name : type`, or `name` alone and `  : type` on the next
+    line when the type is long -- the second form is missed by a `name\\s*:` pattern)."""
+    axs = []
+    for l in txt.splitlines():
+        mm = re.match(r"^([\w.']+)\s*(:|$)", l)
+        if mm and mm.group(1) not in ("Axioms", "Fetching", "Opaque", "Transparent", "Section"):
+            axs.append(mm.group(1))
+    return axs
+
+
+def _audit_all(tag, module, thms, timeout):
+    """FAST PATH: one `Print Assumptions` of the tuple of all theorems of a property file (the dependency graph is
+    walked once: 4 s instead of 45 s).  Returns the list of axioms of the tuple (= the union over the theorems), or
+    None when the file does not compile (a theorem is missing) or the output cannot be parsed."""
+    d = os.path.join(C.BUILD, "audit")
+    os.makedirs(d, exist_ok=True)
+    src = os.path.join(d, "AuditAll_%s.v" % tag)
+    body = "Require Import %s.\nDefinition audit_all := (%s).\n" % (module, ", ".join("@" + t for t in thms))
+    body += 'Goal True. idtac "@@BEGIN ALL". Abort.\nPrint Assumptions audit_all.\nGoal True. idtac "@@END ALL". Abort.\n'
+    open(src, "w").write(body)
+    rc, out = C.sh("coqc -noglob %s %s" % (" ".join(C.qargs_for(GROUP)), src), cwd=d, timeout=timeout)
+    m = re.search(r"@@BEGIN ALL\n(.*?)@@END ALL", out, re.S)
+    if rc != 0 or not m:
+        return None
+    txt = m.group(1)
+    if "Closed under the global context" in txt:
+        return []
+    if "Axioms:" not in txt:
+        return None
+    return _axiom_names(txt)
+
+
+def _audit_parallel(per_file, timeout):
+    """module -> {theorem -> axioms | None}.  `Print Assumptions` walks the whole proof term of every
+    theorem (40 s for E2E.v alone), so the theorems of each property file are dealt round-robin into
+    chunks, at most AUDIT_WORKERS coqc processes in total, run concurrently."""
+    from concurrent.futures import ThreadPoolExecutor
+    # fast path: the tuple of all theorems of each file; accepted only when every axiom it lists is allow-listed
+    # (then every theorem's axioms are a subset of an allowed set).  Anything else -- a missing theorem, a
+    # non-allowed axiom, unparsable output -- falls through to the per-theorem audit below, which attributes it.
+    if os.environ.get("VERIF_E2E_AUDIT_FAST", "1") != "0":
+        with ThreadPoolExecutor(max_workers=AUDIT_WORKERS) as ex:
+            futs = [(module, thms, ex.submit(_audit_all, module.replace(".", "_"), module, thms, timeout))
+                    for _f, module, thms in per_file]
+            fast = [(module, thms, fu.result()) for module, thms, fu in futs]
+        if all(ax is not None and all(C.axiom_ok(a) or C.is_primitive(a) for a in ax) for _m, _t, ax in fast):
+            return {module: {t: list(ax) for t in thms} for module, thms, ax in fast}
+    total = sum(len(t) for _, _, t in per_file) or 1
+    jobs = []
+    for _f, module, thms in per_file:
+        n = max(1, min(len(thms), round(AUDIT_WORKERS * len(thms) / total)))
+        for k in range(n):
+            chunk = thms[k::n]
+            if chunk:
+                jobs.append(("%s_%d" % (module.replace(".", "_"), k), module, chunk))
+    out = {module: {} for _f, module, _t in per_file}
+    with ThreadPoolExecutor(max_workers=AUDIT_WORKERS) as ex:
+        futs = [(module, ex.submit(_audit_chunk, tag, module, chunk, timeout)) for tag, module, chunk in jobs]
+        for module, fu in futs:
+            out[module].update(fu.result())
+    return out
+
+
 def obligations(timeout=2400, audit_timeout=1200, which=None):
     """(ok, total, discharged, failures, axioms): build + forbidden-construct scan + Print Assumptions
     audit of every theorem of coq/e2e/E2E.v AND coq/e2e/E2EStat.v (`which` = "scan" / "stat" restricts
@@ -160,6 +311,7 @@ def obligations(timeout=2400, audit_timeout=1200, which=None):
     axioms = set()
     discharged = 0
     C.translate_deps(GROUP)
+    _extra_translate()
     for f, _, t in per_file:
         if not t:
             failures.append("no theorem found in coq/e2e/%s" % f)
@@ -175,8 +327,9 @@ def obligations(timeout=2400, audit_timeout=1200, which=None):
         failures.append("coq build failed in coq/%s: %s line %s (%s)" % (
             b.get("failed_group"), b.get("failed_file"), b.get("failed_line"), b.get("failed_theorem")))
         return False, total, 0, failures, []
+    audited = _audit_parallel(per_file, audit_timeout)
     for f, module, thms in per_file:
-        res, out = C.audit_theorems(GROUP, module, thms, timeout=audit_timeout)
+        res = audited[module]
         for t in thms:
             ax = res.get(t)
             if ax is None:
@@ -200,6 +353,16 @@ def obligations_scan(timeout=2400, audit_timeout=1200):
 def obligations_stat(timeout=2400, audit_timeout=1200):
     """The statistics side only (coq/e2e/E2EStat.v): for C09 / C11 / C12 / C13."""
     return obligations(timeout, audit_timeout, which="stat")
+
+
+# what a statistics property (C09 / C11 / C12 / C13) merges into its SPEC to count the theorems of
+# coq/e2e/E2EStat.v as obligations of its thorough tier:   SPEC = dict(..., **e2e.STAT_EXTRA)
+STAT_EXTRA = dict(
+    extra_obligations={"thorough": obligations_stat},
+    extra_obligations_name="coq/e2e/E2EStat.v: composition of C09 (conversion chain), C11 / C12 / C13 (both p-value methods "
+                           "on one exact tail), C10, C14 (counts through a file) and the scanning pipeline of E2E.v",
+    extra_obligations_cmd="make -C coq/e2e (and imported groups) + Print Assumptions audit of LME2E.E2EStat",
+)
 
 
 def _translators():
@@ -227,6 +390,7 @@ def main(tier="quick", seed=1, replay=None):
     # regenerate the Gen*.v files of the imported groups from the current tree (vlib.common.translate_deps),
     # so that what is built never depends on what an earlier run against another tree left on disk
     notes.extend(C.translate_deps(GROUP))
+    notes.extend(_extra_translate())
     ok, total, discharged, fl, axioms = obligations()
     failures.extend(fl)
     if ok and tier == "thorough" and os.environ.get("VERIF_E2E_COQCHK", "1") != "0":
